@@ -77,17 +77,17 @@ func getIntervalValue(term ast.BaseTerm) (ast.Interval, error) {
 		return ast.Interval{}, fmt.Errorf("expected constant for interval, got %T", term)
 	}
 
-	// Intervals are stored as pairs of numbers (nanoseconds since epoch)
+	// Intervals are pairs of time instants, or of numbers (nanoseconds since epoch)
 	if c.Type == ast.PairShape {
 		fst, snd, err := c.PairValue()
 		if err != nil {
 			return ast.Interval{}, fmt.Errorf("invalid interval pair: %w", err)
 		}
-		startNano, err := fst.NumberValue()
+		startNano, err := intervalBoundNanos(fst)
 		if err != nil {
 			return ast.Interval{}, fmt.Errorf("invalid interval start: %w", err)
 		}
-		endNano, err := snd.NumberValue()
+		endNano, err := intervalBoundNanos(snd)
 		if err != nil {
 			return ast.Interval{}, fmt.Errorf("invalid interval end: %w", err)
 		}
@@ -98,6 +98,15 @@ func getIntervalValue(term ast.BaseTerm) (ast.Interval, error) {
 	}
 
 	return ast.Interval{}, fmt.Errorf("expected pair for interval, got %v", c.Type)
+}
+
+// intervalBoundNanos reads one end of an interval: a time instant (the declared
+// argument type of the interval predicates) or a number of nanoseconds since the epoch.
+func intervalBoundNanos(c ast.Constant) (int64, error) {
+	if c.Type == ast.TimeType {
+		return c.TimeValue()
+	}
+	return c.NumberValue()
 }
 
 // Allen's Interval Algebra implementations
